@@ -574,12 +574,6 @@ theorem C07_logger_methods_keep_receiver :
     (∀ w ∈ loggerRecvWrites, w.1 = "traceRecorder" ∧ w.2.1 = "Trace") ∧ "logger.LogMode" ∈ loggerPtrMethods ∧ "logger.Trace" ∈ loggerPtrMethods := by decide
 
 open Gorm.Gen in
-/-- LogMode never returns its receiver: DB.Debug() / Session{Logger: l.LogMode(x)} get a logger of their own -/
-theorem C07_logmode_returns_copy :
-    loggerLogModeRets.length = loggerLogModeRecvs.length ∧ loggerLogModeRets ≠ [] ∧
-      ∀ p ∈ loggerLogModeRets.zip loggerLogModeRecvs, ¬ (p.2 ∈ p.1.2) ∧ p.1.2 ≠ [] := by decide
-
-open Gorm.Gen in
 example : (stmtAppendSites.filter (fun s => s.file == "chainable_api.go")).length ≥ 3 ∧ mergeAppendSites.length ≥ 3 := by decide
 
 end Gorm
